@@ -87,6 +87,16 @@ func (h *heartbeat) close() { syscall.Munmap(h.mem) }
 
 const defaultMemLimit = 6 << 30
 
+var workerHB *heartbeat
+
+// Alive tells the parent's watchdog that a long-running case is making progress (e.g. while it waits
+// for a subprocess). No-op outside a worker.
+func Alive() {
+	if workerHB != nil {
+		atomic.AddInt64((*int64)(unsafe.Pointer(&workerHB.mem[16])), 1)
+	}
+}
+
 // WorkerMain is the worker process entry: reads group assignments from stdin.
 func WorkerMain(id, tier string, seed int64, hbPath string) {
 	c := Lookup(id)
@@ -105,6 +115,7 @@ func WorkerMain(id, tier string, seed int64, hbPath string) {
 	if err != nil {
 		fatalf(2, "heartbeat: %v", err)
 	}
+	workerHB = hb
 	out := bufio.NewWriterSize(os.Stdout, 1<<16)
 	enc := json.NewEncoder(out)
 	in := bufio.NewScanner(os.Stdin)
